@@ -1,7 +1,7 @@
 ------------------------------ MODULE Trace_T2J ------------------------------
 (* Binding B for C03.  Events:                                                *)
 (*   Desc {desc, ddump}                                                       *)
-(*   T2J  {t, b, i2s, u8, nob64, disallow, native, st, d}                     *)
+(*   T2J  {t, b, i2s, u8, nob64, disallow, wreq, wdef, wopt, optbm, native, st, d} *)
 (*        st = ok (d = dump of the parsed output) | err | badjson | panic:..  *)
 EXTENDS T2J, TraceKit
 
@@ -20,7 +20,8 @@ Step ==
         /\ UNCHANGED desc
      ELSE
         LET src == DecAll(e.t, e.b)
-            o == [i2s |-> e.i2s, u8 |-> e.u8, nob64 |-> e.nob64, disallow |-> e.disallow]
+            o == [i2s |-> e.i2s, u8 |-> e.u8, nob64 |-> e.nob64, disallow |-> e.disallow,
+                  wreq |-> e.wreq, wdef |-> e.wdef, wopt |-> e.wopt, optbm |-> e.optbm]
             exp == T2JV(src.v, desc.from, desc.structs, o)
             api == IF e.native THEN "nativeskip" ELSE "go"
         IN
